@@ -301,11 +301,27 @@ def _compatible_spec(ex, st, post, result):
         g = eq(dims[0][1].result, dims[1][1].result)
     yield ('combine_same_forwarded_dimensions', z3.Implies(res, z3.And(z3.BoolVal(len(dims) == 2), g)),
            'combined only if both forward the same dimension parameters')
+    # C17: the combined source has no resolution range of its own: a source whose range excludes this request must not be
+    # merged into the upstream request of another one
+    q = post.env['query']
+    conts = [e for i, e in T.evs(st, 'contains') if len(e.args) == 3]
+    g_rr = z3.BoolVal(True)
+    for hh in (ha, hb):
+        rr = hh['res_range']
+        mine = [e for e in conts if e.recv is not None and hasattr(rr, 'val') and e.recv.t.eq(rr.val.t)]
+        inside = z3.BoolVal(False)
+        for e in mine:
+            inside = z3.Or(inside, z3.And(ex.truth(st, e.result), eq(e.args[0], ex.opaque_field_at(st, e, q, 'bbox')),
+                                          eq(e.args[1], ex.opaque_field_at(st, e, q, 'size')), eq(e.args[2], ex.opaque_field_at(st, e, q, 'srs'))))
+        g_rr = z3.And(g_rr, z3.Or(z3.Not(ex.truth(st, rr)), inside))
+    yield ('combine_only_inside_both_resolution_ranges', z3.Implies(res, g_rr),
+           'combined only if each of the two sources has no resolution range or its range contains the request (bbox, size, srs)')
 
 
-contract(W + 'WMSSource._is_compatible', props=['C14'],
+contract(W + 'WMSSource._is_compatible', props=['C14', 'C17'],
          types=dict(other='obj:mapproxy.source.wms:WMSSource', query='opaque'), returns='bool', default_callee='opaque',
-         inline=['__eq__'], opaque_spec={'dimensions_for_params': {'pure': True}},
+         opaque_fields=dict(c17_upstream.QF), stable_fields=['bbox', 'size', 'srs'],
+         inline=['__eq__'], opaque_spec={'dimensions_for_params': {'pure': True}, 'contains': {'returns': 'bool', 'pure': True}},
          trace=[_compatible_spec])
 
 
